@@ -191,7 +191,7 @@ func runBridge(r Round) *outcome {
 			pollUntil(3*time.Millisecond, func() bool { return cc.parked.Load() >= 2 })
 			cc.open()
 		}
-		if !pollUntil(3*time.Second, func() bool { return b.IsClosed() && startReturned.Load() }) {
+		if !pollUntilBlocked(3*time.Second, 20*time.Second, func() bool { return b.IsClosed() && startReturned.Load() }) {
 			o.failf("C16/bridge/completion-path-did-not-close-bridge/"+r.Paths[0],
 				"3s after %s: bridge closed=%v, Start returned=%v (no Close call from outside yet)", r.Paths[0], b.IsClosed(), startReturned.Load())
 			cleanupRound()
@@ -232,7 +232,7 @@ func runBridge(r Round) *outcome {
 	srcPeer.Close()
 	tgtPeer.Close()
 	if !stage1 {
-		if rc.wait(10 * time.Second) {
+		if ok, _ := rc.waitBlocked(10*time.Second, 40*time.Second); ok {
 			o.failf("C16/bridge/close-or-start-returned-only-after-peers-went-away", "Close x%d / Start did not return within 3s after Close; returned once the far ends were closed. Goroutines at 3s:\n%s", r.Closers, stuck)
 		} else {
 			o.failf("C16/bridge/close-or-start-did-not-return", "Close x%d / Start did not return within 13s", r.Closers)
